@@ -80,18 +80,19 @@ Opts = seqref.Opts
 def yaql_options(o):
     return {'yaql.iterableDicts': o.id, 'yaql.convertTuplesToLists': o.tl, 'yaql.convertSetsToLists': o.sl,
             'yaql.convertInputData': o.ci, 'yaql.limitIterators': 10000 if o.lim is None else o.lim,
-            'yaql.memoryQuota': 10000000}
+            'yaql.memoryQuota': 10000000, 'yaql.convertOutputData': o.co}
 
 
 _OPT_NAME = {'id': 'yaql.iterableDicts', 'tl': 'yaql.convertTuplesToLists', 'sl': 'yaql.convertSetsToLists',
-             'ci': 'yaql.convertInputData', 'lim': 'yaql.limitIterators'}
+             'ci': 'yaql.convertInputData', 'lim': 'yaql.limitIterators', 'co': 'yaql.convertOutputData'}
 
 # (options of the base engine, the deltas of the derived members)
 FAMILY_DEFS = [
     (dict(), [dict(tl=False), dict(id=True), dict(sl=False), dict(ci=False), dict(id=True, tl=False, sl=False),
-              dict(ci=False, tl=False), dict(ci=False, id=True, sl=False), dict(lim=3), dict(lim=5, tl=False)]),
+              dict(ci=False, tl=False), dict(ci=False, id=True, sl=False), dict(lim=3), dict(lim=5, tl=False),
+              dict(co=False), dict(co=False, ci=False), dict(co=False, lim=4)]),
     (dict(id=True, tl=False, sl=False), [dict(id=False), dict(tl=True), dict(sl=True), dict(id=False, tl=True, sl=True),
-                                         dict(ci=False), dict(ci=False, tl=True, id=False), dict(lim=4)]),
+                                         dict(ci=False), dict(ci=False, tl=True, id=False), dict(lim=4), dict(co=False), dict(co=False, id=False, ci=False)]),
 ]
 HOWS = ['copy', 'copy', 'fresh', 'percall']
 
@@ -191,6 +192,33 @@ def to_input(v, top=True):
     return v
 
 
+class RawSet(list):
+    """a set-like raw result (frozenset, keys / items view) with its members normalised"""
+
+
+class RawIter(list):
+    """what came out of a lazy raw result when the host consumed it"""
+
+
+def norm_raw(r, key=False):
+    """a result handed out with yaql.convertOutputData off, consumed the way a host would: lazy things are iterated
+    (an exception they raise propagates), container types are kept"""
+    import collections.abc as abc
+    if isinstance(r, (str, bytes)) or r is None or isinstance(r, (bool, int, float)):
+        return r
+    if isinstance(r, tuple):
+        return tuple(norm_raw(x, key) for x in r)
+    if isinstance(r, list):
+        return [norm_raw(x) for x in r]
+    if isinstance(r, abc.Mapping):
+        return (FD if key else dict)((norm_raw(k, True), norm_raw(v)) for k, v in r.items())
+    if isinstance(r, abc.Set):
+        return RawSet(norm_raw(x) for x in r)
+    if isinstance(r, abc.Iterable):
+        return RawIter(norm_raw(x) for x in r)
+    return r
+
+
 class HostSet(frozenset):
     """a set that iterates in a given order (that of the host's set object)"""
     def __new__(cls, order):
@@ -257,6 +285,8 @@ def run_real_once(text, host_data, member, timeout=5):
                 # one of the equivalent host paths (plain / reused statement / engine.copy / per-call options / document
                 # bound by the host) with this member's engine, chosen by the text: see harness/paths.py
                 r = paths.evaluate(eng, _ROOT, text, host_data)
+            if not member_opts(fi, mi).co:
+                r = norm_raw(r)         # (consumed inside the watchdog)
             return ('ok', r, changed())
         finally:
             signal.setitimer(signal.ITIMER_REAL, 0)
@@ -320,9 +350,17 @@ def match_fin(f, r, opts=None):
     (a tuple is a tuple, a list a list, a set a set or - with convertSetsToLists - a list); without, every sequence and
     set of the reference stands for a list (C14)."""
     strict = opts is not None
+    raw = strict and not opts.co
+    if isinstance(f, seqref.FIter):
+        if raw:
+            return type(r) is RawIter and len(f) == len(r) and all(match_fin(x, y, opts) for x, y in zip(f, r))
+        return type(r) is list and len(f) == len(r) and all(match_fin(x, y, opts) for x, y in zip(f, r))
     if isinstance(f, seqref.FSet) or isinstance(f, tuple) and len(f) == 2 and f[0] == 'set':
         members = f if isinstance(f, seqref.FSet) else f[1]
-        if strict and not opts.sl:
+        if raw:
+            if type(r) is not RawSet or len(r) != len(members):
+                return False
+        elif strict and not opts.sl:
             if type(r) is not set or len(r) != len(members):
                 return False
         elif type(r) is not list or len(r) != len(members):
@@ -340,17 +378,17 @@ def match_fin(f, r, opts=None):
         want = type(f) if strict else list
         return type(r) is want and len(f) == len(r) and all(match_fin(x, y, opts) for x, y in zip(f, r))
     if isinstance(f, dict):
-        if type(r) is not dict or len(f) != len(r):
+        if not isinstance(r, dict) or len(f) != len(r):
             return False
         for k, v in f.items():
-            hit = [rk for rk in r if (match_fin(k, rk, opts) if isinstance(k, tuple) else same_scalar(rk, k))]
+            hit = [rk for rk in r if (match_fin(k, rk, opts) if isinstance(k, (tuple, dict)) else same_scalar(rk, k))]
             if len(hit) != 1 or not match_fin(v, r[hit[0]], opts):
                 return False
         return True
     return same_scalar(f, r)
 
 
-def dec_model(j, strict=False):
+def dec_model(j, strict=False, as_key=False):
     """model value -> finalised python shape with sets marked (to match against the real result); strict: tuples stay
     tuples"""
     if j is None or isinstance(j, bool):
@@ -363,13 +401,15 @@ def dec_model(j, strict=False):
     if k == 's':
         return ''.join(chr(c) for c in x)
     if k == 'tu' and strict:
-        return tuple(dec_model(t, strict) for t in x)
+        return tuple(dec_model(t, strict, as_key) for t in x)
+    if k == 'it' and strict:
+        return seqref.FIter(dec_model(t, strict) for t in x)
     if k in ('tu', 'li', 'it'):
         return [dec_model(t, strict) for t in x]
     if k == 'se':
         return seqref.FSet(dec_model(t, strict) for t in x)
     if k == 'd':
-        return {dec_model(a, strict): dec_model(b, strict) for a, b in x}
+        return (FD if as_key else dict)((dec_model(a, strict, True), dec_model(b, strict)) for a, b in x)
     raise ValueError(j)
 
 
@@ -692,7 +732,8 @@ def work(args):
                 out['runs'] += 1
                 o = member_opts(r['member'][0], r['member'][1])
                 tag = ','.join(n for n, on in (('iterableDicts', o.id), ('tuples', not o.tl), ('sets', not o.sl),
-                                                ('rawInput', not o.ci), ('limit', o.lim is not None)) if on) or 'default'
+                                                ('rawInput', not o.ci), ('limit', o.lim is not None),
+                                                ('rawOutput', not o.co)) if on) or 'default'
                 bo = out['by_opts'].setdefault(tag, [0, 0, 0])          # runs, out of domain, real exceptions
                 bo[0] += 1
                 bo[1] += 1 if (r['ref'][0] == 'ood' or (r['model'] or {}).get('err') == 'OOD') else 0
